@@ -434,10 +434,13 @@ def main(tier, seed, collect=None):
     # biggest shards first so the pool drains evenly
     sh.sort(key=lambda s: -(s[1] if s[0] == "spine" else 0))
     total = core.run_shards(run_shard, sh, seed=seed, pid=PID)
+    other_hosts = core.run_on_hosts(PID, ["py310", "py311", "py313"], "quick", seed, total) if tier == "thorough" else []
+
     c = total.c
     if note:
         total.notes[note] += 1
     cov = {
+        "converter_hosts": [core.HOST] + other_hosts,
         "evaluations": c["trees"],
         "distinct_nontrivial": c["in_scope"],
         "rule": "each case is a distinct expression tree (distinct derivation key); it is non-trivial when it is in scope, "
